@@ -7,14 +7,16 @@ import PdfVerif.Lemmas.Layout
 namespace PdfVerif.Layout
 open PdfVerif PdfVerif.Gen.Layout
 
+variable {le : Cmp}
+
 /-! ### the heap -/
 
-theorem popMin_none {h : List HEntry} : popMin h = none ↔ h = [] := by
+theorem popMin_none {h : List HEntry} : popMin le h = none ↔ h = [] := by
   cases h with
   | nil => simp [popMin]
   | cons e rest =>
     simp only [popMin]
-    cases popMin rest with
+    cases popMin le rest with
     | none => simp
     | some p =>
       obtain ⟨m, r⟩ := p
@@ -22,11 +24,11 @@ theorem popMin_none {h : List HEntry} : popMin h = none ↔ h = [] := by
       split <;> simp
 
 theorem popMin_perm : ∀ (h : List HEntry) (e : HEntry) (r : List HEntry),
-    popMin h = some (e, r) → h.Perm (e :: r)
+    popMin le h = some (e, r) → h.Perm (e :: r)
   | [], e, r, h => by simp [popMin] at h
   | x :: rest, e, r, h => by
     simp only [popMin] at h
-    cases hp : popMin rest with
+    cases hp : popMin le rest with
     | none =>
       rw [hp] at h
       simp only [Option.some.injEq, Prod.mk.injEq] at h
@@ -129,10 +131,10 @@ theorem arith_merge (w k m : Nat) (hm : m ≤ k) :
   rw [h1, h2]
   nlinarith
 
-theorem gtbStep_inv {s s' : GState} (hi : GInv s) (h : gtbStep s = some s') :
+theorem gtbStep_inv {s s' : GState} (hi : GInv s) (h : gtbStep le s = some s') :
     GInv s' ∧ phi s' < phi s := by
   unfold gtbStep at h
-  cases hp : popMin s.heap with
+  cases hp : popMin le s.heap with
   | none => rw [hp] at h; simp at h
   | some pr =>
     obtain ⟨e, heap⟩ := pr
@@ -305,11 +307,11 @@ theorem gtbStep_inv {s s' : GState} (hi : GInv s) (h : gtbStep s = some s') :
           fun x hx => hi.heapNe x (hsub x hx)⟩, ?_⟩
         simp only [phi, liveCount, hW]; omega
 
-theorem gtbLoop_terminates : ∀ (fuel : Nat) (s : GState), GInv s → phi s < fuel → (gtbLoop fuel s).2 = true
+theorem gtbLoop_terminates : ∀ (fuel : Nat) (s : GState), GInv s → phi s < fuel → (gtbLoop le fuel s).2 = true
   | 0, s, _, h => by omega
   | fuel + 1, s, hi, h => by
     simp only [gtbLoop]
-    cases hs : gtbStep s with
+    cases hs : gtbStep le s with
     | none => rfl
     | some s' =>
       have := gtbStep_inv hi hs
@@ -430,7 +432,7 @@ theorem gtbInit_phi (pageBB : BB) (boxes : List Box) : phi (gtbInit pageBB boxes
   omega
 
 /-- The loop of `group_textboxes` ends by itself within the fuel for every input. -/
-theorem groupTextboxes_fuel (pageBB : BB) (boxes : List Box) : (groupTextboxes pageBB boxes).2.fuel = false := by
+theorem groupTextboxes_fuel (pageBB : BB) (boxes : List Box) : (groupTextboxes le pageBB boxes).2.fuel = false := by
   simp only [groupTextboxes]
   rw [gtbLoop_terminates _ _ (gtbInit_inv pageBB boxes) (gtbInit_phi pageBB boxes)]
   rfl
@@ -504,12 +506,12 @@ theorem filterMap_lookup_append {l : List Plane.PObj} {nodes : List Node} (g : N
   intro x hx
   exact List.getElem?_append_left (h x hx)
 
-theorem gtbStep_cinv {boxes : List Box} {s s' : GState} (hc : CInv boxes s) (h : gtbStep s = some s') :
+theorem gtbStep_cinv {boxes : List Box} {s s' : GState} (hc : CInv boxes s) (h : gtbStep le s = some s') :
     CInv boxes s' := by
   have hinv' := (gtbStep_inv hc.inv h).1
   have hi := hc.inv
   unfold gtbStep at h
-  cases hp : popMin s.heap with
+  cases hp : popMin le s.heap with
   | none => rw [hp] at h; simp at h
   | some pr =>
     obtain ⟨e, heap⟩ := pr
@@ -654,11 +656,11 @@ theorem gtbStep_cinv {boxes : List Box} {s s' : GState} (hc : CInv boxes s) (h :
         obtain ⟨b, hb⟩ := h2
         exact hnone a b ha hb
 
-theorem gtbLoop_cinv {boxes : List Box} : ∀ (fuel : Nat) (s : GState), CInv boxes s → CInv boxes (gtbLoop fuel s).1
+theorem gtbLoop_cinv {boxes : List Box} : ∀ (fuel : Nat) (s : GState), CInv boxes s → CInv boxes (gtbLoop le fuel s).1
   | 0, s, h => by simpa [gtbLoop] using h
   | fuel + 1, s, h => by
     simp only [gtbLoop]
-    cases hs : gtbStep s with
+    cases hs : gtbStep le s with
     | none => exact h
     | some s' => exact gtbLoop_cinv fuel s' (gtbStep_cinv h hs)
 
@@ -751,11 +753,11 @@ theorem gtbInit_cinv (pageBB : BB) (boxes : List Box) : CInv boxes (gtbInit page
 exactly one returned node, every group's box is the union of its two members' boxes and its
 class is TBRL iff a member is vertical. -/
 theorem groupTextboxes_spec (pageBB : BB) (boxes : List Box) :
-    ((groupTextboxes pageBB boxes).1.flatMap Node.leaves).Perm boxes
-    ∧ (∀ n ∈ (groupTextboxes pageBB boxes).1, NodeWF n)
-    ∧ (groupTextboxes pageBB boxes).2.err = false
-    ∧ (groupTextboxes pageBB boxes).2.fuel = false := by
-  have hc := gtbLoop_cinv (gtbFuel boxes.length) _ (gtbInit_cinv pageBB boxes)
+    ((groupTextboxes le pageBB boxes).1.flatMap Node.leaves).Perm boxes
+    ∧ (∀ n ∈ (groupTextboxes le pageBB boxes).1, NodeWF n)
+    ∧ (groupTextboxes le pageBB boxes).2.err = false
+    ∧ (groupTextboxes le pageBB boxes).2.fuel = false := by
+  have hc := gtbLoop_cinv (le := le) (gtbFuel boxes.length) _ (gtbInit_cinv pageBB boxes)
   refine ⟨hc.leaves, ?_, hc.noErr, groupTextboxes_fuel pageBB boxes⟩
   intro n hn
   simp only [groupTextboxes, List.mem_filterMap] at hn
